@@ -12,7 +12,7 @@ from .recipes import Cast, TEMPLATES, add_step, eager_step, containers_of
 
 PROPERTY = 'C09'
 BOUNDS = ("Baked recipe programs of 1-2 steps (quick: all 1-step programs and every 2-step program whose steps share an object; thorough: all "
-          "2-step and 60 seeded 3-step programs) over the 22 step templates of C08 with symbolic quantities; stage "
+          "2-step and 24 seeded 3-step programs) over the 22 step templates of C08 with symbolic quantities; stage "
           "partition: stage s1 = the first k steps, s2 = the rest, for every split point k; queries for water and NaCl "
           "(thorough: + DMSO, never used) in umol, mg (thorough: + uL), timeframes all / s1 / s2 (every split point for programs whose steps share an object), destination "
           "sets: default ('plates'), every single used object, the set of all used objects, and one pair. Oracle: "
@@ -41,7 +41,7 @@ def cells(tier, seed):
     else:
         p3 = [p for p in R.programs(3) if len(p) == 3]
         rng.shuffle(p3)
-        progs = p1 + p2 + p3[:60]
+        progs = p1 + p2 + p3[:24]
         units = ['umol', 'mg', 'uL']
         subs = ['water', 'NaCl', 'DMSO']
     for prog in progs:
@@ -57,7 +57,8 @@ def cells(tier, seed):
             if tier == 'quick':
                 combos = [[('water', 'umol'), ('NaCl', 'mg')]]       # one exploration of the program serves both queries
             else:
-                combos = [[(sub, unit) for unit in units] for sub in subs] if len(prog) < 3 else \
+                # (DMSO never occurs in these programs: asked about for the 1-step programs only)
+                combos = [[(sub, unit) for unit in units] for sub in (subs if len(prog) == 1 else subs[:2])] if len(prog) < 3 else \
                     [[('water', 'umol'), ('NaCl', 'mg'), ('water', 'uL')]]
             for ci, combo in enumerate(combos):
                 out.append({'id': f"prog/{','.join(prog)}/k{k}/q{ci}", 'fn': 'h_used', 'round': 'lite',
